@@ -62,7 +62,9 @@ def _k_spec():
 sign_case = st.fixed_dictionaries({
     "d": gen.scalar_d(), "id": id_spec, "mlen": st.one_of(st.integers(0, 300), st.sampled_from([0, 1, 55, 56, 63, 64, 65, 119, 120, 128])),
     "seed": st.integers(0, 1 << 32), "cuts": st.lists(st.integers(0, 300), max_size=4),
-    "iface": st.sampled_from(["sign", "do_sign", "fixlen", "ctx", "ctx", "ctx_fixlen", "ctx_reset", "ctx_many"]),
+    "iface": st.sampled_from(["sign", "do_sign", "fixlen", "fast", "fast", "ctx", "ctx", "ctx_fixlen", "ctx_reset", "ctx_many"]),
+    # digest-level interfaces: the 32-byte digest is any value, also at and above n and p (it is reduced modulo n)
+    "dgst": st.sampled_from(["hash", "hash", "hash", "n-1", "n", "n+1", "p-1", "p", "p+1", "ff", "ffffffff00", "ffffffff-hash", "zero", "one"]),
     "k": _k_spec(), "reject_first": st.sampled_from(["none", "none", "ge_n", "zero", "max", "eq_n"]),
     "fixlen": st.sampled_from([70, 71, 72]), "dgst_hi": st.booleans(),
     # digest-level interfaces only: the digest is chosen for the scripted nonce so that r = 0 or r + k = n (step A5 must redraw)
@@ -138,9 +140,13 @@ def sign(case, ctx):
               "sm2_compute_z(idlen=%d, id=%s..): %s != model %s" % (len(ident), ident[:20].hex(), z.raw().hex(), M.compute_z(pub, ident).hex()),
               "z/" + ("default-prefix" if case["id"]["kind"] == "prefix" else case["id"]["kind"]))
     e = M.digest_for_sign(pub, ident, msg)
-    if iface in ("sign", "do_sign", "fixlen") and case["dgst_hi"]:
+    if iface in ("sign", "do_sign", "fixlen", "fast") and case["dgst_hi"]:
         # these interfaces take an arbitrary 32-byte digest: also values >= n
         e = (M.N + (M.b2i(e) % (gen.R256 - M.N))).to_bytes(32, "big")
+    DIG = ("sign", "do_sign", "fixlen", "fast")
+    if iface in DIG and case.get("dgst", "hash") != "hash" and aim == "none":
+        e = {"n-1": M.N - 1, "n": M.N, "n+1": M.N + 1, "p-1": M.P - 1, "p": M.P, "p+1": M.P + 1, "ff": (1 << 256) - 1, "ffffffff00": 0xFFFFFFFF << 224,
+             "ffffffff-hash": (0xFFFFFFFF << 224) | (M.b2i(e) >> 32), "zero": 0, "one": 1}[case["dgst"]].to_bytes(32, "big")
     if aim != "none":
         # e with e + x([k]G) = 0 (r = 0) or e + x([k]G) + k = 0 mod n (r + k = n) for the first accepted draw k:
         # the signer has to discard k and draw again (the stream continues with the seeded generator)
@@ -159,6 +165,21 @@ def sign(case, ctx):
             so = Buf(64, fill=0)
             r = l.sm2_do_sign(key, Buf.of(e), so)
             ctx.check(r == 1, "sm2_do_sign ret=%d" % r, "sign/ret")
+            raw = so.raw()
+            sigs.append(D.enc_sig(M.b2i(raw[:32]), M.b2i(raw[32:])))
+        elif iface == "fast":
+            # the pre-computed signer: d' = (1 + d)^-1, 32 (k, x([k]G) mod n) pairs drawn at once, then one pair and a digest per signature
+            scripted = False
+            fp = Buf(32, fill=0)
+            r = l.sm2_fast_sign_compute_key(key, fp)
+            ctx.check(r == 1, "sm2_fast_sign_compute_key ret=%d for d=%x" % (r, d), "sign/fast/compute_key")
+            pc = Buf(64 * 32, fill=0)
+            r = l.sm2_fast_sign_pre_compute(pc)
+            ctx.check(r == 1, "sm2_fast_sign_pre_compute ret=%d" % r, "sign/fast/pre_compute")
+            slot = case["seed"] % 32
+            so = Buf(64, fill=0)
+            r = l.sm2_fast_sign(fp, Buf.of(pc.raw(64, 64 * slot)), Buf.of(e), so)
+            ctx.check(r == 1, "sm2_fast_sign ret=%d" % r, "sign/ret")
             raw = so.raw()
             sigs.append(D.enc_sig(M.b2i(raw[:32]), M.b2i(raw[32:])))
         elif iface == "fixlen":
@@ -225,7 +246,7 @@ def sign(case, ctx):
         ctx.check(rr not in seen_r, "nonce reused inside one signing context (same r twice)", "sign/nonce-reuse")
         seen_r.add(rr)
         if idx < 2 or idx == len(sigs) - 1:
-            if iface in ("sign", "do_sign", "fixlen"):
+            if iface in ("sign", "do_sign", "fixlen", "fast"):
                 r1 = l.sm2_verify(key, Buf.of(e), Buf.of(sig), len(sig))
                 ctx.check(r1 == 1, "sm2_verify rejects a signature made by %s: ret=%d" % (iface, r1), "complete/sm2_verify")
                 so = Buf.of(M.i2b(rr) + M.i2b(ss))
